@@ -175,3 +175,11 @@ fire("C05", "composite-map_wires-clones-the-memoised-hash",
      "R-C05-memo", "CompositeOp.map_wires")
 silent("C05", "composite-map_wires-resets-memo-without-exclusion",
        [(_CO, "            if attr not in {\"data\", \"operands\", \"_wires\", \"_overlapping_ops\", \"_hash\"}:", "            if attr not in {\"data\", \"operands\", \"_wires\", \"_overlapping_ops\"}:")])
+
+# --- R-C05-multiset / partition hash
+fire("C05", "sum-hash-over-the-set-of-operands",
+     ("pennylane/ops/op_math/sum.py", "        return hash((\"Sum\", hash(frozenset(Counter(self.operands).items()))))", "        return hash((\"Sum\", frozenset(self.operands)))"),
+     "R-C05-multiset", "Sum.__hash__")
+fire("C05", "mutual-info-hash-over-merged-wires",
+     ("pennylane/measurements/mutual_info.py", "            tuple(self.raw_wires[0].tolist()),\n            tuple(self.raw_wires[1].tolist()),", "            tuple(self.wires.tolist()),"),
+     "R-C05-order", "MutualInfoMP.__hash__")
